@@ -315,9 +315,9 @@ type c11XState struct {
 	note    chan struct{}
 	events  int // bumped on every state change (progress counter of the quiescence witness)
 	log     []int
-	sigSeen []int          // tcp: pongs whose handler ran
-	sigOnRd []bool         // ... on the socket reader's goroutine (handleSignals on the stack)
-	post    map[int]int    // dispatches of item i that have returned
+	sigSeen []int       // tcp: pongs whose handler ran
+	sigOnRd []bool      // ... on the socket reader's goroutine (handleSignals on the stack)
+	post    map[int]int // dispatches of item i that have returned
 	started map[[2]int]bool
 	ret     map[[2]int]bool
 	done    map[int]bool // handler of request item m ran to its end
@@ -1056,9 +1056,9 @@ var c11XFixed = []c11XFixedScript{
 	{"D", 65534, "Q@3:C2C3C4 a a a"},
 	{"D", 65530, "Q@10:C2 a"},
 	{"D", 0, "Q@1:C2 a"},
-	{"D", 49152, "Q@16385:C2 a"},   // own 0xc000, peer 1: 0x4001 ahead across the wrap: not moved
-	{"D", 49153, "Q@16383:C2 a"},   // peer 0: 0x3fff ahead: first distance that is left alone
-	{"D", 49154, "Q@16382:C2 a"},   // 0x3ffe ahead: last distance that moves the counter
+	{"D", 49152, "Q@16385:C2 a"}, // own 0xc000, peer 1: 0x4001 ahead across the wrap: not moved
+	{"D", 49153, "Q@16383:C2 a"}, // peer 0: 0x3fff ahead: first distance that is left alone
+	{"D", 49154, "Q@16382:C2 a"}, // 0x3ffe ahead: last distance that moves the counter
 	{"D", 1000, "Q@16382:C2 a"},
 	{"D", 1000, "Q@16383:C2 a"},
 	{"D", 1000, "Q@65535:C2 a"}, // one behind
